@@ -5,30 +5,33 @@
 From Verif Require Import Base.Str Syntax.Pos Syntax.Reader Proofs.ReaderProofs Proofs.ReaderRuneProofs.
 Open Scope N_scope.
 
-(* C07_rune_stream, full statement:
-     forall bufsz obq obqd input sched eager, 4 <= bufsz ->
-       trace bufsz obq obqd input sched eager = atrace obq obqd input
-   (hence equal for any two schedules).  PROVED BELOW FOR INPUTS OF BYTES < 128 — all of CRLF,
-   NUL skipping, backslash-newline, backslash-CR-LF, the backquote-escape lookahead, EOF position,
-   every schedule and buffer size >= 4.  Missing for the _partial: the non-ASCII branch (decodeRune
-   with its UTF-8 refill and the invalid-UTF-8 error), which needs the lemma
-   "full_rune p or a valid decode of p => decode_rune (p ++ q) = decode_rune p"; that branch is
-   covered by the code leg and the search only. *)
-Theorem C07_rune_stream_partial : forall bufsz obq obqd input sched eager,
-  (4 <= bufsz)%nat -> ascii input ->
+(* C07_rune_stream: for EVERY input (any bytes: valid, truncated and invalid UTF-8 included), every
+   schedule (chunk lengths incl. 0 and 1), EOF delivered with or after the last data, every buffer
+   size >= 4 and every openBquotes/openBquoteDbls, the sequence of (rune, width, nextPos) — or the
+   "invalid UTF-8 encoding" error with its position — produced by repeated rune() equals that of the
+   Spec reader on the unchunked input.  Covers CRLF, NUL skipping, backslash-newline,
+   backslash-CR-LF, the backquote-escape lookahead, multi-byte runes split across reads (the
+   decodeRune refill loop), invalid bytes, and the EOF position. *)
+Theorem C07_rune_stream : forall bufsz obq obqd input sched eager, (4 <= bufsz)%nat ->
   trace bufsz obq obqd input sched eager = atrace obq obqd input.
-Proof. exact rune_stream_ascii. Qed.
-Print Assumptions C07_rune_stream_partial.
+Proof. exact rune_stream_all. Qed.
+Print Assumptions C07_rune_stream.
 
-Theorem C07_rune_stream_schedule_free_partial : forall bufsz obq obqd input sched eager,
-  (4 <= bufsz)%nat -> ascii input ->
-  trace bufsz obq obqd input sched eager = trace bufsz obq obqd input [] false.
+(* hence any two ways of delivering the bytes give the same stream *)
+Theorem C07_rune_stream_schedule_free : forall bufsz obq obqd input sched eager sched' eager', (4 <= bufsz)%nat ->
+  trace bufsz obq obqd input sched eager = trace bufsz obq obqd input sched' eager'.
 Proof. exact rune_stream_schedule_free. Qed.
-Print Assumptions C07_rune_stream_schedule_free_partial.
+Print Assumptions C07_rune_stream_schedule_free.
+
+(* one rune() call = one step of the Spec reader, and it preserves the invariant (all bytes) *)
+Theorem C07_rune_step : forall bufsz obq obqd s, (4 <= bufsz)%nat -> Inv bufsz s -> perr s = None ->
+  Inv bufsz (rune bufsz obq obqd s) /\ abs (rune bufsz obq obqd s) = arune obq obqd (abs s).
+Proof. exact rune_spec. Qed.
+Print Assumptions C07_rune_step.
 
 (* Lookahead completeness, for EVERY reader state satisfying the invariant Inv (any bytes, any
-   schedule, any buffer split).  Inv holds initially (Inv_init) and is preserved by fill and by every
-   lookahead (the first conjuncts below) and by rune on inputs of bytes < 128 (rune_spec).
+   schedule, any buffer split).  Inv holds initially (C07_inv_init) and is preserved by fill, by every
+   lookahead (the first conjuncts below) and by rune (C07_rune_step).
    [rem s] is the input not yet consumed: buffered-but-unread bytes ++ bytes the reader still holds. *)
 Theorem C07_peek_complete : forall bufsz s s' b, Inv bufsz s -> r s <> runeEOF -> (0 < bufsz)%nat ->
   peek bufsz s = (s', b) ->
@@ -51,7 +54,7 @@ Theorem C07_zshNumRange_complete : forall bufsz s s' z a, Inv bufsz s -> r s <> 
 Proof. exact zshNumRange_spec. Qed.
 Print Assumptions C07_zshNumRange_complete.
 
-(* C07_bquote_lookahead_complete is part of C07_rune_stream_partial: obq/obqd are arbitrary there and
+(* C07_bquote_lookahead_complete is part of C07_rune_stream: obq/obqd are arbitrary there and
    the Spec's aloop tests the next unread byte, not the buffer. *)
 
 Theorem C07_inv_init : forall bufsz rdr, Inv bufsz (init rdr).
@@ -60,7 +63,7 @@ Print Assumptions C07_inv_init.
 
 (* non-vacuity and the witnesses of the defects repaired by fix: c37b7a8 / 9108a51 / d3fa48b on the
    model of the repaired code: one-byte reads, data+EOF reads and the single read agree, also on
-   non-ASCII input (outside the proved scope, evaluated). *)
+   non-ASCII input. *)
 Example C07_fixed_witnesses :
   let ones n := repeat 1%nat n in
   (snd (zshNumRange 1024 (rune 1024 0 0 (init (mkreader [60;49;45;49;48;62;32;120] (ones 8%nat) false)))),
